@@ -11,6 +11,7 @@ import (
 
 	"github.com/vimeo/dials"
 	"github.com/vimeo/dials/sourcewrap"
+	"github.com/vimeo/dials/transform"
 	"pgregory.net/rapid"
 
 	"verifharness/internal/fake"
@@ -29,11 +30,13 @@ type C07BlankCase struct {
 	Skip      bool         `json:"skip,omitempty"`
 	Other     bool         `json:"other"`      // another watching source next to the Blank
 	ExitFirst bool         `json:"exit_first"` // the monitor exits (context cancelled) before the ops
+	Wrap      int          `json:"wrap"`       // 0: bare Blank; 1: Blank inside a transforming source without manglers; 2: with a (type-preserving here) set->slice mangler
 	Ops       []C07BlankOp `json:"ops"`
 }
 
 func genC07Blank(t *rapid.T) C07BlankCase {
 	c := C07BlankCase{Skip: rapid.Bool().Draw(t, "skip"), Other: rapid.Bool().Draw(t, "other"), ExitFirst: rapid.IntRange(0, 4).Draw(t, "exit_first") == 0}
+	c.Wrap = rapid.IntRange(0, 2).Draw(t, "wrap")
 	g := &genState{}
 	n := rapid.IntRange(1, 5).Draw(t, "ops")
 	for i := 0; i < n; i++ {
@@ -84,10 +87,17 @@ func runC07Blank(c C07BlankCase) (verdict vrt.Verdict) {
 			synctest.Wait()
 		}()
 		blank := &sourcewrap.Blank{}
-		srcs := []dials.Source{blank}
+		var bsrc dials.Source = blank
+		switch c.Wrap {
+		case 1:
+			bsrc = sourcewrap.NewTransformingSource(blank)
+		case 2:
+			bsrc = sourcewrap.NewTransformingSource(blank, &transform.SetSliceMangler{})
+		}
+		srcs := []dials.Source{bsrc}
 		other := &fake.Watcher{}
 		if c.Other {
-			srcs = []dials.Source{other, blank}
+			srcs = []dials.Source{other, bsrc}
 		}
 		defaults := SimDefaults{A: -1, B: -2, C: -3, Name: "default"}
 		d, err := dials.Params[SimCfg]{SkipInitialVerification: c.Skip}.Config(cfgCtx, defaults.Cfg(), srcs...)
@@ -215,14 +225,14 @@ func runC07Blank(c C07BlankCase) (verdict vrt.Verdict) {
 	if msg != "" {
 		return vrt.KeyedViolationf("C07", "%s", msg)
 	}
-	return vrt.OK(heldCount > 0 || c.ExitFirst || rejected > 0, fmt.Sprintf("held=%d", min(heldCount, 3)), fmt.Sprintf("exit_first=%v", c.ExitFirst))
+	return vrt.OK(heldCount > 0 || c.ExitFirst || rejected > 0, fmt.Sprintf("held=%d", min(heldCount, 3)), fmt.Sprintf("exit_first=%v", c.ExitFirst), fmt.Sprintf("wrap=%d", c.Wrap))
 }
 
 func TestC07Blank(t *testing.T) {
 	curT = t
 	vrt.Check(t, vrt.Prop[C07BlankCase]{
 		ID: "C07", Name: "blank",
-		Rule: "1..5 Blank.SetSource calls on a Blank inside a real Dials (optionally next to another watcher), with a live context or a 1h virtual-time deadline, while the monitor is free, parked inside Verify or right before it answers (until the caller's deadline has passed), or already gone; " +
+		Rule: "1..5 Blank.SetSource calls on a Blank inside a real Dials (bare, or wrapped in a transforming source; optionally next to another watcher), with a live context or a 1h virtual-time deadline, while the monitor is free, parked inside Verify or right before it answers (until the caller's deadline has passed), or already gone; " +
 			"oracle: nil => the view holds the value; a value whose stack does not verify => the verifier's error and an unchanged view; the caller's context ending first => SetSource returns a context error no later than its own deadline (virtual time), the monitor then finishes on its own and the Blank stays usable (its mutex is released); " +
 			"non-trivial = a call that met a parked or exited monitor, or a rejected value; distinct = distinct case JSON",
 		Assumptions: []string{"SetSource is called after Config, as documented"},
